@@ -1,5 +1,6 @@
 (* C07 — Fragments: define is invisible, insert wraps, replace substitutes. Theorems only. *)
-From Tpl Require Import Html.Exec Html.Manager Proofs.ExecSpec Proofs.FragmentProps.
+From Tpl Require Import Html.Exec Html.Manager Proofs.ExecSpec Proofs.FragmentProps Proofs.DefsRegistered Proofs.DefsFile.
+From Coq Require Import Permutation.
 Open Scope N_scope.
 
 Section C07.
@@ -65,6 +66,30 @@ Theorem load_order_irrelevant : forall is_space to_lower is_letter is_udigit met
   forall name, assoc name T1 = assoc name T2.
 Proof. intros; eapply FragmentProps.add_files_templates_perm_empty; eassumption. Qed.
 
+(* "Fragments and files are resolved by name across the whole manager": loading a file registers the file and EVERY
+   element carrying define in its tree - at any depth, also inside other definitions and inside ordinary elements - under
+   the evaluated name with the element's children (blank ends trimmed) as body; nothing else is added, nothing
+   registered before is changed; the model's fuel is never the reason of a failure (DefsFuel.load_height). *)
+Theorem every_definition_registered : forall is_space to_lower is_letter is_udigit methods call_fn text_tags void_elements tag_prefix attr_prefix global tps name src tps',
+  add_file is_space to_lower is_letter is_udigit methods call_fn text_tags void_elements tag_prefix attr_prefix global tps name src = (tps', None) ->
+  exists root, load is_space to_lower text_tags void_elements attr_prefix (pok is_letter is_udigit) src = inl root /\
+    assoc name tps = None /\
+    tps' = tps ++ (name, file_tp root) :: defs_of is_space is_letter is_udigit methods call_fn tag_prefix attr_prefix global (PureRenderTree.nodes root) /\
+    assoc name tps' = Some (file_tp root) /\
+    (forall d nm, desc root d -> def_name_of is_letter is_udigit methods call_fn tag_prefix attr_prefix global d = Some nm ->
+       assoc nm tps' = Some (mkT (trim_blank_ends is_space (n_children d)) (n_children d))) /\
+    NoDup (name :: keys (defs_of is_space is_letter is_udigit methods call_fn tag_prefix attr_prefix global (PureRenderTree.nodes root))) /\
+    (forall k, In k (keys (defs_of is_space is_letter is_udigit methods call_fn tag_prefix attr_prefix global (PureRenderTree.nodes root))) -> assoc k tps = None) /\
+    (forall d, desc root d -> def_kind is_letter is_udigit methods call_fn tag_prefix attr_prefix global d <> DErr).
+Proof. exact DefsFile.add_file_registers_all. Qed.
+(* "regardless of load order": a set of files that loads in one order loads in every order *)
+Theorem load_succeeds_in_any_order : forall is_space to_lower is_letter is_udigit methods call_fn text_tags void_elements tag_prefix attr_prefix global files1 files2 tps tps1,
+  Permutation files1 files2 ->
+  add_files is_space to_lower is_letter is_udigit methods call_fn text_tags void_elements tag_prefix attr_prefix global tps files1 = (tps1, None) ->
+  exists tps2, add_files is_space to_lower is_letter is_udigit methods call_fn text_tags void_elements tag_prefix attr_prefix global tps files2 = (tps2, None).
+Proof. exact DefsFile.add_files_order_irrelevant_success. Qed.
+Print Assumptions every_definition_registered.
+Print Assumptions load_succeeds_in_any_order.
 Print Assumptions insert_step.
 Print Assumptions replace_step.
 Print Assumptions unknown_template.
